@@ -203,8 +203,6 @@ def fft_case(case, res):
                 except Exception:
                     pass
             for backend in ("numpy", "dask"):
-                if sp_only and backend == "dask":
-                    continue
                 res.state(key + (backend,))
                 if backend == "numpy":
                     xin = x
